@@ -527,9 +527,14 @@ type Action struct {
 	Skip      bool
 	HijackReq bool
 	HijackRes bool
-	Srv       *SrvConn      // proxy-side socket of the connection carrying the exchange
-	Returned  chan struct{} // closed when the hijacking modifier call has returned
-	retOnce   sync.Once
+	// ErrKind shapes the error a failing modifier returns: "" one line;
+	// "multi" a martian.MultiError of two errors (its text has a line break, as
+	// an aggregating fifo.Group produces); "quoted" a text with double quotes,
+	// a backslash and a tab.
+	ErrKind  string
+	Srv      *SrvConn      // proxy-side socket of the connection carrying the exchange
+	Returned chan struct{} // closed when the hijacking modifier call has returned
+	retOnce  sync.Once
 }
 
 // NewAction returns an action with its channel.
@@ -720,7 +725,7 @@ func (rc *Recorder) ModifyRequest(req *http.Request) error {
 			c.Ctx.SkipRoundTrip()
 		}
 		if a.ReqErr {
-			err = errors.New(ReqErrText(c.XID))
+			err = ModErr("req", c.XID, a.ErrKind)
 		}
 		if a.HijackReq {
 			rc.hijack(c, a, "req")
@@ -743,7 +748,7 @@ func (rc *Recorder) ModifyResponse(res *http.Response) error {
 			res.Header.Set("X-Vh-Resmut", c.XID)
 		}
 		if a.ResErr {
-			err = errors.New(ResErrText(c.XID))
+			err = ModErr("res", c.XID, a.ErrKind)
 		}
 		if a.HijackRes {
 			rc.hijack(c, a, "res")
@@ -756,15 +761,57 @@ func (rc *Recorder) ModifyResponse(res *http.Response) error {
 	return err
 }
 
-// ReqErrText / ResErrText are the error messages returned by the modifier.
+// ReqErrText / ResErrText are the marker texts of the modifier's errors.
 func ReqErrText(xid string) string { return "vh-reqerr-" + xid }
 func ResErrText(xid string) string { return "vh-reserr-" + xid }
 
+// ModErr builds the error the modifier returns for an exchange; ErrTokens
+// gives the word tokens that a Warning carrying that error must contain.
+func ModErr(side, xid, kind string) error {
+	base := "vh-" + side + "err-" + xid
+	switch kind {
+	case "multi":
+		me := martian.NewMultiError()
+		me.Add(errors.New(base + " first-part"))
+		me.Add(errors.New(base + " second-part"))
+		return me
+	case "quoted":
+		return errors.New(base + " said \"quoted-part\" back\\slash\ttab-part")
+	}
+	return errors.New(base)
+}
+
+// ErrTokens returns the tokens ([A-Za-z0-9-]+ runs that identify the error)
+// in the order they occur in the error text.
+func ErrTokens(side, xid, kind string) []string {
+	base := "vh-" + side + "err-" + xid
+	switch kind {
+	case "multi":
+		return []string{base, "first-part", base, "second-part"}
+	case "quoted":
+		return []string{base, "quoted-part", "back", "slash", "tab-part"}
+	}
+	return []string{base}
+}
+
 // HasWarning reports whether one of the Warning values is a martian warning
-// (code 199, agent "martian") carrying text.
-func HasWarning(vals []string, text string) bool {
+// (code 199, agent "martian") that carries the tokens in order. How control
+// characters and quotes of the error text are encoded is not prescribed.
+func HasWarning(vals []string, tokens []string) bool {
 	for _, v := range vals {
-		if strings.HasPrefix(v, `199 "martian" `) && strings.Contains(v, strconv.Quote(text)) {
+		if !strings.HasPrefix(v, `199 "martian" `) {
+			continue
+		}
+		rest, ok := v, true
+		for _, t := range tokens {
+			i := strings.Index(rest, t)
+			if i < 0 {
+				ok = false
+				break
+			}
+			rest = rest[i+len(t):]
+		}
+		if ok {
 			return true
 		}
 	}
